@@ -105,6 +105,7 @@ def parse_type(s: str) -> T:
         if head == "TupleOf": return TSeq("tuple", parse_type(inner))
         if head == "Tuple": return TTup([parse_type(x) for x in _split_top(inner)])
         if head == "Opt": return TOpt(parse_type(inner))
+        if head == "Dict1": return TTup([parse_type(x) for x in _split_top(inner)], "dict")
     raise ValueError(f"unknown type {s!r}")
 
 
